@@ -65,6 +65,7 @@ type FnEnc struct {
 	obls        []*Obl
 	oblCount    map[string]int
 	assertFired map[int]bool
+	lastArgs    []RV // arguments of the call being translated (arg0, arg1, ... in cut points)
 	lastRets    []RV // results of the call being translated (bound as ret, ret0, ret1 in `after` cut points)
 	lits        map[string]string // const name -> literal
 	loops       []*Loop
@@ -913,7 +914,8 @@ func resolveUses(uses []string, ord int, self string) []string {
 				}
 			}
 			out = append(out, u)
-		case strings.HasPrefix(u, "assert."):
+		case strings.HasPrefix(u, "assert."), strings.HasPrefix(u, "assume."), strings.HasPrefix(u, "call."):
+			// cut points, assumed dependency contracts and callee postconditions by their flag name (a trailing * matches a prefix)
 			out = append(out, u)
 		case ord > 0:
 			out = append(out, fmt.Sprintf("L%d.%s", ord, u))
